@@ -142,4 +142,15 @@ theorem slab_roundtrip (k : Slab.Kind) (f : Slab.SFile) (h : Props.C13.WF f) :
     parseRecords (Slab.encode f).length (Slab.encode f) = some (Slab.rows f) :=
   ⟨Props.C13.mm_decode_encode k f h, Props.C09.slab_tiles f⟩
 
+/-- **C08 (landuse files).** Writing any well-formed landuse content (either style, 11 or 26 categories, up to two of
+the optional fields) and reading it back gives the same content, and writing what was read again gives the same
+bytes. -/
+theorem landuse_roundtrip (cells : Nat) (f : Landuse.LFile) (h : Landuse.WF cells f) :
+    Landuse.read cells (Landuse.write f) = some f ∧
+    ∀ g, Landuse.read cells (Landuse.write f) = some g → Landuse.write g = Landuse.write f := by
+  refine ⟨Landuse.read_write cells f h, ?_⟩
+  intro g hg
+  rw [Landuse.read_write cells f h] at hg
+  cases hg; rfl
+
 end Props.C08
